@@ -178,7 +178,7 @@ Proof.
   apply N.eqb_eq in E. subst. intros H. inversion H. left. reflexivity.
 Qed.
 
-Lemma inv_frame cf st tr e o st' :
+Lemma inv_frame_gen cf st tr e o st' :
   Inv cf st tr ->
   call_of (n_calls tr) e = [] -> fates o = [] ->
   st'.(st_pend) = st.(st_pend) -> st'.(st_next_sid) = st.(st_next_sid) -> st'.(st_next_id) = st.(st_next_id) ->
@@ -200,6 +200,19 @@ Proof.
     + rewrite Hf. intros i [].
 Qed.
 
+Lemma inv_frame cf st tr e o st' :
+  Inv cf st tr ->
+  call_of (n_calls tr) e = [] -> fates o = [] ->
+  st'.(st_pend) = st.(st_pend) -> st'.(st_next_sid) = st.(st_next_sid) -> st'.(st_next_id) = st.(st_next_id) ->
+  (forall c, connected st' c = live_step c (n_connects tr) e (connected st c)) ->
+  st'.(st_next_conn) = st.(st_next_conn) + (if is_connect e then 1 else 0) ->
+  (forall p, In p st.(st_pend) -> owner_of st' p.(p_name) = None) ->
+  st'.(st_services) = st.(st_services) ->
+  Inv cf st' (tr ++ [(e, o)]).
+Proof.
+  intros I Hc Hf Hp Hs Hi Hconn Hn Ho Hsv. eapply inv_frame_gen; eauto. rewrite Hsv. apply I.
+Qed.
+
 Lemma unowned_assoc cf st tr st' :
   Inv cf st tr -> (forall k, assoc k st.(st_owners) = None -> assoc k st'.(st_owners) = None) ->
   forall p, In p st.(st_pend) -> owner_of st' p.(p_name) = None.
@@ -214,9 +227,10 @@ Lemma inv_call_immediate cf st tr e o st' :
   call_of (n_calls tr) e <> [] -> fates o = [n_calls tr] ->
   st'.(st_pend) = st.(st_pend) -> st'.(st_next_sid) = st.(st_next_sid) -> st'.(st_next_id) = st.(st_next_id) + 1 ->
   st'.(st_conns) = st.(st_conns) -> st'.(st_next_conn) = st.(st_next_conn) -> st'.(st_owners) = st.(st_owners) ->
+  st'.(st_services) = st.(st_services) ->
   Inv cf st' (tr ++ [(e, o)]).
 Proof.
-  intros I Hc Hf Hp Hs Hi Hconn Hn Ho.
+  intros I Hc Hf Hp Hs Hi Hconn Hn Ho Hsv.
   destruct (fated_ok_fresh tr e o (i_fated_lt _ _ _ I) (i_fated_nodup _ _ _ I) (or_intror (conj Hf Hc))) as [F1 F2].
   assert (is_connect e = false /\ (forall c, live_step c (n_connects tr) e (live tr c) = live tr c) /\ nlen (call_of (n_calls tr) e) = 1) as [E1 [E2 E3]].
   { destruct e; simpl in Hc; try congruence; repeat split. }
@@ -230,6 +244,7 @@ Proof.
     + rewrite Hf. intros i [<-|[]]. lia.
   - intros p Hin. pose proof (i_unowned _ _ _ I p Hin) as U.
     destruct (p_name p); simpl in *; unfold connected in *; rewrite ?Hconn, ?Ho; exact U.
+  - rewrite Hsv. apply I.
 Qed.
 
 Lemma filter_mem_nil (l : list call) : filter (fun c => negb (mem c.(c_id) [])) l = l.
@@ -242,9 +257,10 @@ Lemma inv_call_join cf st tr e o st' c n p :
   find_pending n st.(st_pend) = Some p ->
   st'.(st_pend) = add_entry n (entry_of c) st.(st_pend) -> st'.(st_next_sid) = st.(st_next_sid) -> st'.(st_next_id) = st.(st_next_id) + 1 ->
   st'.(st_conns) = st.(st_conns) -> st'.(st_next_conn) = st.(st_next_conn) -> st'.(st_owners) = st.(st_owners) ->
+  st'.(st_services) = st.(st_services) ->
   Inv cf st' (tr ++ [(e, o)]).
 Proof.
-  intros I Hc Hd Hf Hfind Hp Hs Hi Hconn Hn Ho.
+  intros I Hc Hd Hf Hfind Hp Hs Hi Hconn Hn Ho Hsv.
   destruct (fated_ok_fresh tr e o (i_fated_lt _ _ _ I) (i_fated_nodup _ _ _ I) (or_introl Hf)) as [F1 F2].
   assert (is_connect e = false /\ (forall x, live_step x (n_connects tr) e (live tr x) = live tr x)) as [E1 E2].
   { destruct e; simpl in Hc; try congruence; repeat split. }
@@ -272,6 +288,7 @@ Proof.
     pose proof (i_unowned _ _ _ I q0 H1) as U.
     destruct (p_name q0); simpl in *; unfold connected in *; rewrite ?Hconn, ?Ho; exact U.
   - intros q Hin. destruct (Hq q Hin) as [q0 [H1 [H2 _]]]. rewrite H2. apply (i_wk _ _ _ I q0 H1).
+  - rewrite Hsv. apply I.
 Qed.
 
 (* a call that opens a new pending activation *)
@@ -282,9 +299,10 @@ Lemma inv_call_new cf st tr e o st' c n x :
   st'.(st_pend) = st.(st_pend) ++ [mkPending n x st.(st_next_sid) [entry_of c]] ->
   st'.(st_next_sid) = st.(st_next_sid) + 1 -> st'.(st_next_id) = st.(st_next_id) + 1 ->
   st'.(st_conns) = st.(st_conns) -> st'.(st_next_conn) = st.(st_next_conn) -> st'.(st_owners) = st.(st_owners) ->
+  st'.(st_services) = st.(st_services) ->
   Inv cf st' (tr ++ [(e, o)]).
 Proof.
-  intros I Hc Hd Hf Hfind Hown Hwk Hp Hs Hi Hconn Hn Ho.
+  intros I Hc Hd Hf Hfind Hown Hwk Hp Hs Hi Hconn Hn Ho Hsv.
   destruct (fated_ok_fresh tr e o (i_fated_lt _ _ _ I) (i_fated_nodup _ _ _ I) (or_introl Hf)) as [F1 F2].
   assert (is_connect e = false /\ (forall y, live_step y (n_connects tr) e (live tr y) = live tr y)) as [E1 E2].
   { destruct e; simpl in Hc; try congruence; repeat split. }
@@ -319,6 +337,7 @@ Proof.
   - intros q Hin. rewrite Hp in Hin. apply in_app_iff in Hin. destruct Hin as [Hin|[<-|[]]].
     + apply (i_wk _ _ _ I q Hin).
     + simpl. exact Hwk.
+  - rewrite Hsv. apply I.
 Qed.
 
 (* a step that answers and removes whole pending activations: those with [g] false *)
@@ -330,9 +349,10 @@ Lemma inv_remove cf st tr e o st' (g : pending -> bool) :
   st'.(st_pend) = filter g st.(st_pend) -> st'.(st_next_sid) = st.(st_next_sid) -> st'.(st_next_id) = st.(st_next_id) ->
   st'.(st_conns) = st.(st_conns) -> st'.(st_next_conn) = st.(st_next_conn) ->
   (forall q, In q st.(st_pend) -> g q = true -> owner_of st' q.(p_name) = None) ->
+  st'.(st_services) = st.(st_services) ->
   Inv cf st' (tr ++ [(e, o)]).
 Proof.
-  intros I Hc E1 E2 Hnd Hf Hp Hs Hi Hconn Hn Ho.
+  intros I Hc E1 E2 Hnd Hf Hp Hs Hi Hconn Hn Ho Hsv.
   assert (forall i, In i (fates o) -> In i (all_ids st.(st_pend))) as Hsub.
   { intros i Hin. apply Hf in Hin. destruct Hin as [q [H1 [_ H2]]]. unfold all_ids. apply in_flat_map. exists q. tauto. }
   destruct (fated_ok_table tr e o st.(st_pend) (i_fated_lt _ _ _ I) (i_fated_nodup _ _ _ I) (inv_unfated cf st tr I) Hnd Hsub) as [F1 F2].
@@ -362,24 +382,25 @@ Proof.
   - intros q Hin. rewrite Hp in Hin. apply filter_In in Hin. apply (i_nonempty _ _ _ I q). tauto.
   - intros q Hin. rewrite Hp in Hin. apply filter_In in Hin. apply Ho; tauto.
   - intros q Hin. rewrite Hp in Hin. apply filter_In in Hin. apply (i_wk _ _ _ I q). tauto.
+  - rewrite Hsv. apply I.
 Qed.
 
 (* ---------------------------------------------------------------- the cases of bus_activation_activate_service *)
 Lemma activate_cases cf st c id s n auto cl st' o :
   activate cf st c id s n auto cl = (st', o) ->
   (st' = st /\ fates o = [id] /\ (forall x, In x o -> is_spawn x = false))
-  \/ (exists p sv, find_pending n st.(st_pend) = Some p /\ find_service cf n = Some sv /\
+  \/ (exists p sv, find_pending n st.(st_pend) = Some p /\ find_service st n = Some sv /\
         st' = set_pend st (add_entry n (mkEntry id c s auto cl) st.(st_pend)) /\ o = [])
-  \/ (exists sv, find_pending n st.(st_pend) = None /\ find_service cf n = Some sv /\
+  \/ (exists sv, find_pending n st.(st_pend) = None /\ find_service st n = Some sv /\
         st' = mkState st.(st_conns) st.(st_next_conn) st.(st_owners)
                       (st.(st_pend) ++ [mkPending n sv.(sv_exec) st.(st_next_sid) [mkEntry id c s auto cl]])
-                      (st.(st_next_sid) + 1) st.(st_next_id) /\
+                      (st.(st_next_sid) + 1) st.(st_next_id) st.(st_services) /\
         o = [OSpawn st.(st_next_sid) n sv.(sv_exec)] /\ (auto = false -> owner_of st n = None)).
 Proof.
   unfold activate. intros H.
   destruct (max_pending cf <=? n_pending (st_pend st)).
   { inversion H; subst. left. repeat split. intros x [<-|[]]. reflexivity. }
-  destruct (find_service cf n) as [sv|] eqn:Fs.
+  destruct (find_service st n) as [sv|] eqn:Fs.
   2:{ inversion H; subst. left. repeat split. intros x [<-|[]]. reflexivity. }
   destruct (auto && negb (pol_activate cf n cl)).
   { inversion H; subst. left. repeat split. intros x [<-|[]]. reflexivity. }
@@ -393,7 +414,7 @@ Proof.
   - inversion H; subst. left. repeat split. intros x [<-|[]]. reflexivity.
 Qed.
 
-Lemma find_service_wk cf n sv : wk_services cf -> find_service cf n = Some sv -> exists k, n = Wk k.
+Lemma find_service_wk st n sv : wk_list st.(st_services) -> find_service st n = Some sv -> exists k, n = Wk k.
 Proof.
   intros W H. unfold find_service in H. apply find_some in H. destruct H as [H1 H2].
   apply bname_eqb_eq in H2. destruct (W sv H1) as [k E]. exists k. congruence.
@@ -401,18 +422,18 @@ Qed.
 
 (* a call handed to activate *)
 Lemma inv_activate cf st tr e c s n auto cl st' o :
-  wk_services cf -> Inv cf st tr ->
+  Inv cf st tr ->
   call_of (n_calls tr) e = [mkCall (n_calls tr) c s n auto cl] ->
   (auto = true -> owner_of st n = None) ->
   activate cf (bump_id st) c (n_calls tr) s n auto cl = (st', o) ->
   Inv cf st' (tr ++ [(e, o)]).
 Proof.
-  intros W I Hc Hown H. apply activate_cases in H. destruct H as [[-> [Hf _]] | [[p [sv [Fp [Fs [-> ->]]]]] | [sv [Fp [Fs [-> [-> Ho]]]]]]].
+  intros I Hc Hown H. apply activate_cases in H. destruct H as [[-> [Hf _]] | [[p [sv [Fp [Fs [-> ->]]]]] | [sv [Fp [Fs [-> [-> Ho]]]]]]].
   - eapply inv_call_immediate; eauto; try reflexivity. rewrite Hc. discriminate.
   - eapply (inv_call_join cf st tr e [] _ (mkCall (n_calls tr) c s n auto cl) n p); eauto; reflexivity.
   - eapply (inv_call_new cf st tr e _ _ (mkCall (n_calls tr) c s n auto cl) n (sv_exec sv)); eauto; try reflexivity.
     + destruct auto; [apply Hown; reflexivity | apply (Ho eq_refl)].
-    + eapply find_service_wk; eauto.
+    + eapply (find_service_wk (bump_id st)); eauto. apply I.
 Qed.
 
 (* ---------------------------------------------------------------- every step preserves the invariant *)
@@ -464,10 +485,10 @@ Proof.
   intros k'. simpl. apply assoc_filter_none.
 Qed.
 
-Lemma step_send cf st tr c s d na cl : wk_services cf -> Inv cf st tr ->
+Lemma step_send cf st tr c s d na cl : Inv cf st tr ->
   Inv cf (fst (step cf st (ESend c s d na cl))) (tr ++ [(ESend c s d na cl, snd (step cf st (ESend c s d na cl)))]).
 Proof.
-  intros W I. simpl. rewrite (i_id _ _ _ I).
+  intros I. simpl. rewrite (i_id _ _ _ I).
   destruct (connected st c).
   2:{ simpl. eapply inv_call_immediate; eauto; try reflexivity. discriminate. }
   unfold send.
@@ -481,10 +502,10 @@ Proof.
   eapply inv_activate; eauto. reflexivity.
 Qed.
 
-Lemma step_start cf st tr c s n : wk_services cf -> Inv cf st tr ->
+Lemma step_start cf st tr c s n : Inv cf st tr ->
   Inv cf (fst (step cf st (EStart c s n))) (tr ++ [(EStart c s n, snd (step cf st (EStart c s n)))]).
 Proof.
-  intros W I. simpl. rewrite (i_id _ _ _ I).
+  intros I. simpl. rewrite (i_id _ _ _ I).
   destruct (connected st c).
   2:{ simpl. eapply inv_call_immediate; eauto; try reflexivity. discriminate. }
   destruct (activate cf (bump_id st) c (n_calls tr) s n false 0) as [st' o] eqn:A. simpl.
@@ -575,7 +596,20 @@ Proof.
   - intros q Hq _. apply (i_unowned _ _ _ I q Hq).
 Qed.
 
-Theorem step_inv cf st tr e : wk_services cf -> Inv cf st tr ->
+Lemma step_reload cf st tr c s : Inv cf st tr ->
+  Inv cf (fst (step cf st (EReload c s))) (tr ++ [(EReload c s, snd (step cf st (EReload c s)))]).
+Proof.
+  intros I. simpl. destruct (connected st c); simpl;
+    (eapply inv_frame; eauto; try reflexivity; [simpl; lia | eapply unowned_assoc; eauto]).
+Qed.
+
+Lemma step_setservices cf st tr l : wk_list l -> Inv cf st tr ->
+  Inv cf (fst (step cf st (ESetServices l))) (tr ++ [(ESetServices l, snd (step cf st (ESetServices l)))]).
+Proof.
+  intros W I. simpl. eapply inv_frame_gen; eauto; try reflexivity; [simpl; lia | eapply unowned_assoc; eauto].
+Qed.
+
+Theorem step_inv cf st tr e : wk_event e -> Inv cf st tr ->
   Inv cf (fst (step cf st e)) (tr ++ [(e, snd (step cf st e))]).
 Proof.
   intros W I. destruct e.
@@ -587,15 +621,19 @@ Proof.
   - apply step_disconnect; auto.
   - apply step_child; auto.
   - apply step_timeout; auto.
+  - apply step_reload; auto.
+  - apply step_setservices; auto.
 Qed.
 
-Theorem run_trace_inv cf h : forall st tr, wk_services cf -> Inv cf st tr ->
+Theorem run_trace_inv cf h : forall st tr, wk_history h -> Inv cf st tr ->
   Inv cf (fst (run_trace cf st tr h)) (snd (run_trace cf st tr h)).
 Proof.
   induction h as [|e h IH]; intros st tr W I; simpl; [exact I|].
-  pose proof (step_inv cf st tr e W I) as S. destruct (step cf st e) as [st1 o]. simpl in S.
-  apply IH; auto.
+  assert (wk_event e) as We by (apply W; left; reflexivity).
+  pose proof (step_inv cf st tr e We I) as S. destruct (step cf st e) as [st1 o]. simpl in S.
+  apply IH; auto. intros e' He'. apply W. right. exact He'.
 Qed.
 
-Corollary reachable_inv cf h : wk_services cf -> Inv cf (fst (run_trace cf init [] h)) (snd (run_trace cf init [] h)).
-Proof. intros W. apply run_trace_inv; auto. apply inv_init. Qed.
+Corollary reachable_inv cf h : wk_services cf -> wk_history h ->
+  Inv cf (fst (run_trace cf (start cf) [] h)) (snd (run_trace cf (start cf) [] h)).
+Proof. intros W Wh. apply run_trace_inv; auto. apply inv_start. exact W. Qed.
